@@ -117,6 +117,10 @@ func (n *CocagoParser) Visitor(f *ast.File, fset *token.FileSet, fileName string
 			currentStruct.Package = currentFile.PackageName
 			//currentStruct.FilePath = BuildImportName(fileName)
 			newStruct := currentStruct
+			if dsMap[newStruct.NodeName] != nil {
+				// methods met before their receiver type stay with it
+				newStruct.Functions = dsMap[newStruct.NodeName].Functions
+			}
 			dsMap[currentStruct.NodeName] = &newStruct
 		case *ast.StructType:
 			AddStructType(currentStruct.NodeName, x, &currentFile, dsMap)
@@ -124,6 +128,9 @@ func (n *CocagoParser) Visitor(f *ast.File, fset *token.FileSet, fileName string
 			funcType = "FuncDecl"
 			currentFunc, recv := AddFunctionDecl(x, &currentFile)
 			if recv != "" {
+				if dsMap[recv] == nil {
+					dsMap[recv] = &core_domain.CodeDataStruct{NodeName: recv, Package: currentFile.PackageName}
+				}
 				dsMap[recv].Functions = append(dsMap[recv].Functions, *currentFunc)
 			}
 		case *ast.FuncType:
